@@ -594,6 +594,139 @@ example : moduleHeader ["acme".toList, "v1".toList] ["acme".toList, "v1".toList,
     moduleHeader ["acme".toList, "v1".toList] ["acme".toList, "v1".toList] = ⟨["acme".toList, "v1".toList], none⟩ := by
   decide
 
+/-! ## Class body: a field named like a helper member keeps its declaration -/
+
+section Aux
+def lastOf (n : Name) (acc : Option Member) (xs : List (Name × Member)) : Option Member :=
+  xs.foldl (fun acc kv => if kv.1 = n then some kv.2 else acc) acc
+
+theorem lookup_bind (d : ClassDict) (kv : Name × Member) (n : Name) :
+    lookupMember (bindName d kv) n = if kv.1 = n then some kv.2 else lookupMember d n := by
+  induction d with
+  | nil => simp [bindName, lookupMember]
+  | cons h t ih =>
+    obtain ⟨k, v⟩ := h
+    by_cases hk : k = kv.1
+    · by_cases hn : kv.1 = n <;> simp [bindName, lookupMember, hk, hn]
+    · by_cases hn : kv.1 = n
+      · have : k ≠ n := by rw [← hn]; exact hk
+        simp [bindName, lookupMember, hn, this, ih]
+      · simp [bindName, lookupMember, hk, hn, ih]
+
+theorem lookup_foldl (xs : List (Name × Member)) (d : ClassDict) (n : Name) :
+    lookupMember (xs.foldl bindName d) n = lastOf n (lookupMember d n) xs := by
+  induction xs generalizing d with
+  | nil => simp [lastOf]
+  | cons h t ih => simp [List.foldl, ih, lookup_bind, lastOf]
+
+theorem lastOf_append (n : Name) (acc : Option Member) (xs ys : List (Name × Member)) :
+    lastOf n acc (xs ++ ys) = lastOf n (lastOf n acc xs) ys := by simp [lastOf, List.foldl_append]
+
+theorem lastOf_not_mem (n : Name) (acc : Option Member) (xs : List (Name × Member)) (h : ∀ kv ∈ xs, kv.1 ≠ n) :
+    lastOf n acc xs = acc := by
+  induction xs generalizing acc with
+  | nil => simp [lastOf]
+  | cons x t ih =>
+    have hx : x.1 ≠ n := h x (by simp)
+    have := ih acc (fun kv hkv => h kv (by simp [hkv]))
+    simpa [lastOf, List.foldl, hx] using this
+
+theorem fieldBindings_keys (k : Nat) (as : List Name) : ∀ kv ∈ fieldBindings k as, kv.1 ∈ as := by
+  induction as generalizing k with
+  | nil => simp [fieldBindings]
+  | cons a r ih =>
+    intro kv hkv
+    simp only [fieldBindings, List.mem_cons] at hkv
+    rcases hkv with h | h
+    · simp [h]
+    · exact List.mem_cons_of_mem _ (ih (k + 1) kv h)
+
+theorem not_mem_drop_of_nodup (as : List Name) (i : Nat) (a : Name) (hnd : as.Nodup) (hi : as[i]? = some a) :
+    a ∉ as.drop (i + 1) := by
+  induction as generalizing i with
+  | nil => simp
+  | cons b r ih =>
+    cases i with
+    | zero =>
+      simp only [List.getElem?_cons_zero, Option.some.injEq] at hi
+      subst hi
+      simpa using (List.nodup_cons.mp hnd).1
+    | succ j =>
+      simp only [List.getElem?_cons_succ] at hi
+      simpa using ih j (List.nodup_cons.mp hnd).2 hi
+
+theorem lastOf_fields (as : List Name) (k i : Nat) (a : Name) (acc : Option Member)
+    (hi : as[i]? = some a) (hlater : a ∉ as.drop (i + 1)) :
+    lastOf a acc (fieldBindings k as) = some (.field (k + i)) := by
+  induction as generalizing k i acc with
+  | nil => simp at hi
+  | cons b r ih =>
+    cases i with
+    | zero =>
+      simp only [List.getElem?_cons_zero, Option.some.injEq] at hi
+      subst hi
+      have hr : b ∉ r := by simpa using hlater
+      have := lastOf_not_mem b (some (.field k)) (fieldBindings (k + 1) r)
+        (fun kv hkv heq => hr (heq ▸ fieldBindings_keys (k + 1) r kv hkv))
+      simpa [fieldBindings, lastOf, List.foldl] using this
+    | succ j =>
+      simp only [List.getElem?_cons_succ] at hi
+      have hl : a ∉ r.drop (j + 1) := by simpa using hlater
+      have := ih (k + 1) j (if b = a then some (.field k) else acc) hi hl
+      have e : k + 1 + j = k + (j + 1) := by omega
+      simpa [fieldBindings, lastOf, List.foldl, e] using this
+end Aux
+
+/-- "the last binding of a name wins": in the class body the message template prints, the name of the i-th
+    field's attribute ends up bound to that field's declaration — also when a nested class or the `raw_page`
+    property (printed BEFORE the fields) uses the same name — unless the attribute is `done` and the message has
+    an extended-operation status field (the `done` property is printed AFTER the fields). -/
+theorem field_kept (nested attrs : List Name) (hasStatus : Bool) (a : Name) (i : Nat)
+    (hnd : attrs.Nodup) (hi : attrs[i]? = some a) (hdone : ¬ (hasStatus = true ∧ a = "done".toList)) :
+    lookupMember (classDict nested attrs hasStatus) a = some (.field i) := by
+  unfold classDict classBody
+  rw [lookup_foldl, lastOf_append, lastOf_append]
+  rw [lastOf_fields attrs 0 i a _ hi (not_mem_drop_of_nodup attrs i a hnd hi)]
+  cases hasStatus with
+  | false => simp [lastOf]
+  | true =>
+    have : ¬ ['d', 'o', 'n', 'e'] = a := fun h => hdone ⟨rfl, h.symm⟩
+    simp [lastOf, List.foldl, this]
+
+/-- a field called `raw_page` of a paginated message (one that also has `next_page_token`, so that the pager
+    helper property of the same name is printed) keeps its declaration -/
+theorem raw_page_field_kept (nested attrs : List Name) (hasStatus : Bool) (i : Nat)
+    (hnd : attrs.Nodup) (hi : attrs[i]? = some "raw_page".toList) :
+    lookupMember (classDict nested attrs hasStatus) "raw_page".toList = some (.field i) :=
+  field_kept nested attrs hasStatus _ i hnd hi (by intro h; exact absurd h.2 (by decide))
+
+/-- a kept declaration is among the fields proto-plus's metaclass finds -/
+theorem kept_field_seen (d : ClassDict) (a : Name) (i : Nat) (h : lookupMember d a = some (.field i)) :
+    i ∈ fieldsSeen d := by
+  induction d with
+  | nil => simp [lookupMember] at h
+  | cons x t ih =>
+    obtain ⟨k, v⟩ := x
+    by_cases hk : k = a
+    · simp only [lookupMember, hk, if_true, Option.some.injEq] at h
+      simp [fieldsSeen, h]
+    · simp only [lookupMember, hk, if_false] at h
+      have := ih h
+      simp only [fieldsSeen, List.filterMap_cons] at this ⊢
+      cases v <;> simp_all
+
+/-- the code VIOLATES the property here (finding descriptor:missing-field:done-property): a message with an
+    extended-operation status field and a field called `done` — the helper property replaces the declaration,
+    proto-plus sees only the other field -/
+theorem done_field_lost_counterexample :
+    lookupMember (classDict [] ["status".toList, "done".toList] true) "done".toList = some .done ∧
+    fieldsSeen (classDict [] ["status".toList, "done".toList] true) = [0] := by decide
+
+example : lookupMember (classDict ["Inner".toList] ["next_page_token".toList, "items".toList, "raw_page".toList] false)
+    "raw_page".toList = some (.field 2) ∧
+    fieldsSeen (classDict ["Inner".toList] ["next_page_token".toList, "items".toList, "raw_page".toList] false) = [2, 0, 1] := by
+  decide
+
 /-! ## References under Python scoping -/
 
 /-- every non-empty proper prefix of an emitted class path is an emitted class -/
